@@ -845,3 +845,68 @@ def check_float_work(ctx, repo, rule):
                           msg='%s allocates `%s`: the dtype is inherited from the data (%s), so integer evaluation points or whole-number breakpoints '
                               'truncate the basis / spline values to integers' % (q, src(c)[:70], src(dt)), construct='%s work dtype %s' % (q, src(dt)))
     ctx.need(n >= 2, 'bsplvn / value: work array allocations not found')
+
+
+def check_chol_screen(ctx, repo, rule):
+    """cholesky_band: a non-finite entry ANYWHERE in the band is reported through the return value (an explicit isfinite screen over the
+    whole matrix precedes the factorisation); a failure value that may be an empty index list is handled by maskpoints; the
+    weighted design matrix of fit() is weighted on every path."""
+    f = repo.func(BSPLINE, 'cholesky_band')
+    fa = FA(f)
+    ctx.cover(f)
+    lname = f.params[0]
+    screens = [c for c in walk_local(f.node) if isinstance(c, ast.Call) and call_name(c) == 'isfinite' and c.args and src(c.args[0]) == lname]
+    facts = [c for c in walk_local(f.node) if isinstance(c, ast.Call) and call_name(c) == 'cholesky_banded']
+    ctx.need(facts, 'cholesky_band: call of cholesky_banded not found')
+    guarded = False
+    for sc in screens:
+        for a in ancestors(sc):
+            if isinstance(a, ast.If) and any(sc is x for x in ast.walk(a.test)) and any(isinstance(st, ast.Return) for st in a.body) \
+                    and a.lineno < facts[0].lineno:
+                guarded = True
+    ctx.check(rule, guarded, f, screens[0] if screens else facts[0], 'every entry of the band is screened with np.isfinite before the factorisation, with a failure return',
+              msg='cholesky_band factors the matrix without an np.isfinite screen over the whole band (%s): a NaN in an off-diagonal band with a positive '
+                  'diagonal comes back as success (-1) with a non-finite factor, or as an exception from scipy'
+                  % ('only part of it is tested' if not screens else 'the screen does not lead to a failure return'), construct='no finite screen in cholesky_band')
+    # the failure value may be empty -> maskpoints must cope
+    g = repo.func(BSPLINE, 'bspline.maskpoints')
+    ctx.cover(g)
+    rets = [r for r in walk_local(f.node) if isinstance(r, ast.Return) and r.value is not None and isinstance(r.value, ast.Tuple)
+            and 'nonzero' in src(r.value.elts[0])]
+    may_be_empty = False
+    for r in rets:
+        for a in ancestors(r):
+            if isinstance(a, ast.If) and isinstance(a.test, ast.BoolOp) and isinstance(a.test.op, ast.Or) and len(a.test.values) > 1:
+                may_be_empty = True
+    if may_be_empty:
+        err = g.params[1] if len(g.params) > 1 else 'err'
+        first_index = [n for n in walk_local(g.node) if isinstance(n, ast.Subscript) and isinstance(n.value, ast.Name) and n.value.id == err and isinstance(n.ctx, ast.Load)]
+        guards = [n for n in walk_local(g.node) if isinstance(n, ast.If) and any(isinstance(st, ast.Return) for st in n.body)
+                  and src(n.test).replace(' ', '') in ('%s.size==0' % err, 'len(%s)==0' % err, 'not%s.size' % err, '%s.size<1' % err)]
+        ok = bool(guards) and (not first_index or guards[0].lineno < first_index[0].lineno)
+        ctx.check(rule, ok, g, first_index[0] if first_index else g.node, 'maskpoints returns a status for an empty list of failing columns',
+                  msg='cholesky_band can hand back an empty index list (non-finite entries, no non-positive diagonal) and maskpoints indexes it without a guard: '
+                      'fit() raises IndexError instead of returning a status code', construct='maskpoints on an empty failure list')
+    # weighted design
+    h = repo.func(BSPLINE, 'bspline.fit')
+    ha = FA(h)
+    uses = [n for n in walk_local(h.node) if isinstance(n, ast.Name) and n.id == 'a2' and isinstance(n.ctx, ast.Load)]
+    ctx.need(uses, 'bspline.fit: weighted design a2 not found')
+    bad = []
+    for u_ in uses[:1]:
+        for d, v in ha.defs(u_):
+            if v is None:
+                continue
+            names = {x.id for x in ast.walk(v) if isinstance(x, ast.Name)}
+            deep_names = set(names)
+            for x in ast.walk(v):
+                if isinstance(x, ast.Name) and x.id not in ('a1', 'np'):
+                    for d2, v2 in ha.defs(x):
+                        if v2 is not None:
+                            deep_names |= {y.id for y in ast.walk(v2) if isinstance(y, ast.Name)}
+            if not ('a1' in names and 'invvar' in deep_names):
+                bad.append(v)
+    ctx.check(rule, not bad, h, bad[0] if bad else uses[0], 'the design matrix entering the normal equations is a1 times the weights on every path',
+              msg='on some path the weighted design is `a2 = %s`, without the inverse variances: the matrix and the min_influence threshold (still scaled by '
+                  'invvar.sum()) no longer match, and all-zero weights produce a status-0 fit' % (src(bad[0])[:40] if bad else ''),
+              construct='unweighted design a2 = ' + (src(bad[0])[:40] if bad else ''))
